@@ -46,8 +46,11 @@ def family(rng, k):
         base["killfarm"] = []
         variants = [dict(kind="same", sc=base)]
         from ..pairs import without_rows as _wr
+        nst = base["cls"]["nsteps"]
+        inw = lambda r: 0 <= ((base["start"] - r["t"]) if base["rev"] else (r["t"] - base["start"])) < nst * base["dt"]
         for f in farms[1:3]:
-            variants.append(dict(kind="subset", sc=_wr(base, {f}), deleted=[f]))
+            if any(inw(r) for r in base["rows"] if r["id"] != f):      # the remaining set-up must still release something
+                variants.append(dict(kind="subset", sc=_wr(base, {f}), deleted=[f]))
         return dict(base=base, variants=variants, cls=dict(rev=base["rev"], layout="sparse", wfield=False, kills=0, varmetric=True))
     base = base_scenario(rng, hasscal=True, ntimes=rng.choice([2, 3]), nsteps=rng.randrange(4, 9), layout="sparse" if rng.random() < 0.8 else "dense",
                          ops=rng.choice([1, 2, 2, 3]), nkill=0, nfreeze=0, nland=rng.randrange(0, 5), varmetric=rng.random() < 0.4,
